@@ -16,7 +16,7 @@ EXPLANATION = ("Real Doist.do(real=True) with one probe doer, the `time` module 
 FUNCTIONS = [('hio.base.doing', 'Doist.do'), ('hio.base.doing', 'Doist.__init__'), ('hio.help.timing', 'MonoTimer.latest'),
              ('hio.help.timing', 'MonoTimer.expired'), ('hio.help.timing', 'MonoTimer.remaining'), ('hio.help.timing', 'MonoTimer.__init__'),
              ('hio.help.timing', 'Timer.start'), ('hio.help.timing', 'Timer.restart')]
-BOUNDS = {'quick': dict(cycles=3, budget_s=150, audit_max=4), 'thorough': dict(cycles=4, budget_s=900, audit_max=6)}
+BOUNDS = {'quick': dict(cycles=3, budget_s=150, audit_max=4), 'thorough': dict(cycles=3, cycles2=3, budget_s=900, audit_max=6)}      # thorough adds every PAIR of backward-step positions (cycles=4 left a few solver-unknown leaves)
 OUTSIDE = ['forward clock jumps (documented as undetectable)', 'IEEE-754 rounding', 'the asyncio loop (ado)', 'more than 1 (quick) / 2 (thorough) backward steps per run',
            'more than `cycles` cycles']
 STUBS = ['FakeClock for time.time/time.sleep seen by hio.base.doing and hio.help.timing (contract in vf/stubs/fakeclock.py)']
@@ -35,7 +35,7 @@ def partitions(tier):
             ps.append(dict(name='tock-%s-step@%d' % (tk, p1), tock=tk, steps=1, pos=[p1], cycles=b['cycles']))
             if tier == 'thorough':
                 for p2 in range(p1 + 1, npos):
-                    ps.append(dict(name='tock-%s-steps@%d,%d' % (tk, p1, p2), tock=tk, steps=2, pos=[p1, p2], cycles=b['cycles'] - 1))
+                    ps.append(dict(name='tock-%s-steps@%d,%d' % (tk, p1, p2), tock=tk, steps=2, pos=[p1, p2], cycles=b.get('cycles2', b['cycles'] - 1)))
     return ps
 
 
